@@ -106,6 +106,12 @@ def run(ctx: Ctx):
     for name in COLLATE:
         _collate(ctx, pkg.func(f"{MOD}::{name}"), rel)
 
+    # ---- S2c the bucket parameters are defined for every data set the quantifier allows (0 utterances, length 0) ---
+    _bucket_param_domain(ctx, bp, rel)
+
+    # ---- S2'' a memoised length must be keyed by everything it depends on ----------------------------------------------
+    _len_memo(ctx, rel)
+
     # ---- S5 both batching strategies honour the same loader options ----------------------------------------------
     _strategy_arms(ctx, rel)
     plumbing(ctx, "S1")
@@ -411,10 +417,129 @@ def _strategy_arms(ctx: Ctx, rel: str):
     col.floor("strategy_branches", arms_seen, 2)
 
 
+def _len_memo(ctx: Ctx, rel: str):
+    """The loaders memoise `len()`; the memoised function reads the sampler's current epoch (the rank's slice of a
+    shuffled epoch fills the length buckets differently every epoch). A memo that is filled once under `is None` and is
+    neither keyed by the epoch nor reset when the epoch changes reports the first epoch's number of batches forever."""
+    col, pkg = ctx.col, ctx.pkg
+    ln = pkg.func(f"{MOD}::_get_batch_sampler_len")
+    reads_epoch = any(isinstance(n, ast.Attribute) and n.attr == "epoch" for n in own_nodes(ln.node))
+    n_sites = 0
+    for cname in ("LangDataLoader", "SpectDataLoader"):
+        m = pkg.func(f"{MOD}::{cname}.__len__")
+        memo = None
+        for n in own_nodes(m.node):
+            if isinstance(n, ast.If) and isinstance(n.test, ast.Compare) and isinstance(n.test.ops[0], ast.Is) \
+                    and isinstance(n.test.left, ast.Attribute) and u(n.test.left.value) == "self" \
+                    and any(isinstance(st, ast.Assign) and any(u(t) == u(n.test.left) for t in st.targets) and
+                            any(isinstance(c, ast.Call) and call_name(c) == "_get_batch_sampler_len" for c in ast.walk(st.value))
+                            for st in n.body):
+                memo = n
+        n_sites += 1
+        if memo is None:
+            col.ob("G16", "S2", f"{rel}::{cname}.__len__::memo-keyed-by-epoch", True, "", rel, m.line,
+                   sample="no unconditional memo")
+            continue
+        attr = memo.test.left.attr
+        # keyed: the test also compares a stored epoch with the current one; or reset: some method assigns the memo to
+        # None outside __init__ in a method that writes the epoch
+        keyed = any("epoch" in u(x) for x in ast.walk(memo.test) if isinstance(x, ast.Attribute) and x is not memo.test.left) \
+            or isinstance(pkg_parent_test(m, memo), ast.BoolOp)
+        ci = pkg.cls(f"{MOD}::{cname}")
+        reset = False
+        for fl in ci.methods.values():
+            for mm in fl:
+                if mm.name in ("__init__", "__len__"):
+                    continue
+                for x in own_nodes(mm.node):
+                    if isinstance(x, ast.Assign) and any(isinstance(t, ast.Attribute) and u(t) == f"self.{attr}" for t in x.targets) \
+                            and isinstance(x.value, ast.Constant) and x.value.value is None:
+                        reset = True
+        col.ob("G16", "S2", f"{rel}::{cname}.__len__::memo-keyed-by-epoch", (not reads_epoch) or keyed,
+               f"`self.{attr}` is filled once from _get_batch_sampler_len, which reads the sampler's current epoch, and is "
+               f"{'only reset by a setter (iteration advances the epoch without it)' if reset else 'never reset'}: in a "
+               f"distributed, shuffled, length-bucketed run the number of batches changes with the epoch and len(loader) "
+               f"keeps reporting the first epoch's value", rel, memo.lineno, sample=dict(memo=attr, reads_epoch=reads_epoch))
+    col.floor("len_memo_sites", n_sites, 2)
+
+
+def pkg_parent_test(m, memo):
+    return memo.test
+
+
+def _bucket_param_domain(ctx: Ctx, bp, rel: str):
+    """C14 quantifies over data sets of 0..n utterances with arbitrary lengths. In _get_bucket_batch_sampler_params a list
+    built by iterating the data set is empty for an empty data set, so every subscript of it must be dominated by an
+    emptiness guard; and a divisor that derives from the utterance lengths may be 0, so it must be clamped (max(., 1)) or
+    guarded."""
+    col = ctx.col
+    rd = ReachingDefs(bp.node)
+    pm = parent_map(bp.node)
+    ds = bp.params[0].name
+    sized = set()
+    for n in own_nodes(bp.node):
+        if isinstance(n, ast.Assign) and len(n.targets) == 1 and isinstance(n.targets[0], ast.Name):
+            gens = [g for g in ast.walk(n.value) if isinstance(g, ast.comprehension)]
+            if any(any(isinstance(x, ast.Name) and x.id == ds for x in ast.walk(g.iter)) for g in gens):
+                sized.add(n.targets[0].id)
+    if not sized:
+        raise AnalysisError("C14: no data-set-sized list in _get_bucket_batch_sampler_params")
+
+    def guarded(node, names):
+        for t, pol in guards_of(pm, node):
+            if {x.id for x in ast.walk(t) if isinstance(x, ast.Name)} & names:
+                return True
+        for st in bp.node.body:
+            if st.lineno >= node.lineno:
+                break
+            if isinstance(st, ast.If) and any(isinstance(x, (ast.Return, ast.Raise)) for x in st.body) and \
+                    {x.id for x in ast.walk(st.test) if isinstance(x, ast.Name)} & names:
+                return True
+        return False
+
+    def in_comprehension_iter(n):
+        cur = n
+        while cur is not None:
+            par = pm.get(cur)
+            if isinstance(par, ast.comprehension) and par.iter is cur:
+                return True
+            cur = par
+        return False
+    subs = [n for n in own_nodes(bp.node) if isinstance(n, ast.Subscript) and isinstance(n.value, ast.Name) and n.value.id in sized
+            and isinstance(n.ctx, ast.Load) and not in_comprehension_iter(n)]
+    bad = [n for n in subs if not guarded(n, sized | {ds})]
+    col.ob("G23", "S2", f"{rel}::_get_bucket_batch_sampler_params::data-set-sized-list-indexed-under-a-guard", bool(subs) and not bad,
+           f"`{u(bad[0]) if bad else ''}` indexes a list that has one entry per utterance without a guard for the empty data "
+           f"set: a loader over 0 utterances with num_length_buckets > 1 raises IndexError instead of yielding nothing", rel,
+           bad[0].lineno if bad else bp.line, sample=[u(x) for x in subs][:4])
+    # divisors deriving from the lengths
+    divs = []
+    for n in own_nodes(bp.node):
+        if isinstance(n, ast.BinOp) and isinstance(n.op, (ast.FloorDiv, ast.Div, ast.Mod)):
+            der = rd.derives(n.right)
+            if any(isinstance(x, ast.Name) and x.id in sized for x in der.nodes()) or \
+                    any(isinstance(x, ast.Name) and x.id in sized for x in ast.walk(n.right)):
+                divs.append(n)
+    badd = []
+    for n in divs:
+        r = n.right
+        clamped = isinstance(r, ast.Call) and call_name(r) == "max" and any(
+            isinstance(a, ast.Constant) and isinstance(a.value, int) and a.value >= 1 for a in r.args)
+        if not clamped and not guarded(n, {x.id for x in ast.walk(r) if isinstance(x, ast.Name)} - {"j", "n", "i"}):
+            badd.append(n)
+    col.ob("G12", "S2", f"{rel}::_get_bucket_batch_sampler_params::length-divisor-is-positive", bool(divs) and not badd,
+           f"`{u(badd[0]) if badd else ''}` divides by a bucket's length bound, which is 0 when the shortest utterances are empty: "
+           f"size_batch_by_length=True then raises ZeroDivisionError at construction", rel, badd[0].lineno if badd else bp.line,
+           sample=[u(x) for x in divs])
+
+
 def _mutants():
     from selftest.mutate import Mutant as M
     D = "_dataloaders.py"
     return [
+        M("empty-data-set-indexed", "_dataloaders.py", "if not len_idx:\n        return (dict(), dict())\n", "", "data-set-sized-list-indexed-under-a-guard"),
+        M("zero-length-bound-divides", "_dataloaders.py", "m // max(len_bounds[j], 1)", "m // len_bounds[j]", "length-divisor-is-positive"),
+        M("len-memoised-once", "_dataloaders.py", "if self._len is None or self._len[0] != epoch:\n            self._len = (epoch, _get_batch_sampler_len(self.batch_sampler))\n        return self._len[1]", "if self._len is None:\n            self._len = _get_batch_sampler_len(self.batch_sampler)\n        return self._len", "memo-keyed-by-epoch"),
         M("lang-buckets-ignore-drop-last", "_dataloaders.py", "batch_sampler = BucketBatchSampler(utt_sampler, idx2bucket, bucket2size, params.drop_last)", "batch_sampler = BucketBatchSampler(utt_sampler, idx2bucket, bucket2size)", "S5"),
         M("spect-buckets-ignore-drop-last", "_dataloaders.py", "batch_sampler = BucketBatchSampler(utt_sampler, idx2bucket, bucket2size, params.drop_last)", "batch_sampler = BucketBatchSampler(utt_sampler, idx2bucket, bucket2size, False)", "S5", 1),
         M("len-iterates-sampler", D, "for i in batch_sampler.sampler.get_samples_for_epoch(batch_sampler.sampler.epoch))",
